@@ -269,6 +269,7 @@ func (sc *Scen) doStep(sp stepSpec) (err error, panicked bool) {
 	}
 	suspAtStart := e.PeerSuspicious
 	e.beginStep(sp.plan, sp.precheck...)
+	extBeginStep(sc, &sp) // per-property hook (fsm_ext.go), e.g. arm a crash point
 	func() {
 		defer func() {
 			if rec := recover(); rec != nil {
@@ -332,6 +333,9 @@ func (sc *Scen) doStep(sp stepSpec) (err error, panicked bool) {
 		Pre: pre, Input: sp.input(post), World: sc.worldTerm(d, suspAtStart), Post: coqMachine(post, retries), Removed: removed, Err: ek,
 		Effects: append([]string{}, e.effects...), Kind: sp.kind, NonTriv: len(e.effects) > 1,
 		JS: map[string]interface{}{"input": sp.kind, "state_after": string(post.Current), "removed": removed, "effects": e.effJSON},
+	}
+	if extRecord(sc, &rec, panicked) { // per-property hook (fsm_ext.go): true = the step is not recorded (simulated crash)
+		return err, panicked
 	}
 	if activeObserver != nil {
 		rec.Obs = activeObserver(sc, &rec)
